@@ -5,4 +5,4 @@ set -e
 REPO=${ELFIO_REPO:-/repo}
 [ -d "$REPO/_build" ] || cmake -G Ninja -B "$REPO/_build" -S "$REPO" -DELFIO_BUILD_TESTS=ON >/dev/null
 cmake --build "$REPO/_build" >/dev/null
-ctest --test-dir "$REPO/_build" -j8 --timeout 900
+ctest --test-dir "$REPO/_build" --timeout 900
